@@ -35,6 +35,91 @@ def classify(c):
             f"{'disjoint' if l2 < r1 or r2 > l1 else 'overlap'}")
 
 
+def fmt_py(sg, l, r):
+    return f"std.{'S' if sg else 'U'}Fixed[{l}:{r}]"
+
+
+def hw_part(tier, cases, scratch, V):
+    """wrapper designs for + - * and resize on run-time values; result formats are taken from the Python-level observations
+    (they are judged there), the raw results of the emitted logic are judged by the same predicate (Fixed.CaseOk)"""
+    maxw = 3
+    fmts = {}
+    for c in cases:
+        op, sg, l1, r1, n1, l2, r2, n2, p1, p2, lo, ro, no = c
+        if op not in ("add", "sub", "mul", "resize") or l1 - r1 + 1 > maxw or l2 - r2 + 1 > maxw:
+            continue
+        key = (op, sg, l1, r1, l2, r2, p1, p2)
+        if no == -99999:
+            fmts.setdefault(key, None)        # raises at compile time for (at least) this value: the resize is recorded there
+        elif fmts.get(key) is None:
+            fmts[key] = (lo, ro)
+    keys = sorted(k for k, v in fmts.items() if v is not None)
+    if tier == "quick":
+        keys = [k for i, k in enumerate(keys) if k[0] == "resize" and i % 3 == 0 or k[0] != "resize" and i % 2 == 0]
+    src = ["from __future__ import annotations", "import cohdl", "from cohdl import Bit, BitVector, Unsigned, Signed, Port", "from cohdl import std", ""]
+    ents = []
+    for i, k in enumerate(keys):
+        op, sg, l1, r1, l2, r2, p1, p2 = k
+        lo, ro = fmts[k]
+        name = f"E19H_{i:04d}"
+        src += [f"class {name}(cohdl.Entity):", f"    a = Port.input(BitVector[{l1 - r1 + 1}])"]
+        if op != "resize":
+            src.append(f"    b = Port.input(BitVector[{l2 - r2 + 1}])")
+        src += [f"    o = Port.output(BitVector[{lo - ro + 1}])", "", "    def architecture(self):", "        @std.concurrent", "        def logic():",
+                f"            x = std.from_bits[{fmt_py(sg, l1, r1)}](self.a)"]
+        if op == "resize":
+            src.append(f"            self.o <<= std.to_bits(x.resize({l2}, {r2}, round_style=std.FixedRoundStyle.{'ROUND' if p1 else 'TRUNCATE'}, "
+                       f"overflow_style=std.FixedOverflowStyle.{'SATURATE' if p2 else 'WRAP'}))")
+        else:
+            src.append(f"            y = std.from_bits[{fmt_py(sg, l2, r2)}](self.b)")
+            src.append(f"            self.o <<= std.to_bits(x {'+' if op == 'add' else '-' if op == 'sub' else '*'} y)")
+        src.append("")
+        ents.append((name, k))
+    obs = vlib.compile_modules([{"name": "gc19hw", "source": "\n".join(src) + "\n", "entities": [n for n, _ in ents]}], scratch)
+    recs, rejected, key_of = [], collections.Counter(), {}
+    for name, k in ents:
+        op, sg, l1, r1, l2, r2, p1, p2 = k
+        lo, ro = fmts[k]
+        ob = obs.get(name)
+        key_of[name] = k
+        if ob is None or ob["outcome"] == "crash":
+            V.machinery_error(f"hw wrapper {name} {k}: {ob['error']['msg'] if ob else 'no observation'}")
+            continue
+        if ob["outcome"] != "accepted":
+            # an operation that cannot be compiled is a rejection, not a wrong value; a resize that is rejected for run-time values
+            # is reported like one that raises on constants (C19: "resize to any target format returns ...")
+            rejected[op] += 1
+            if op == "resize":
+                where = "target-above-source" if r2 > l1 else "target-below-source" if l2 < r1 else "overlap"
+                V.violation(f"hw-resize-rejected:{'S' if sg else 'U'}Fixed:{where}:{'round' if p1 else 'truncate'}-{'saturate' if p2 else 'wrap'}|"
+                            f"[{l1}:{r1}]->[{l2}:{r2}] {ob['error']['cls']}: {ob['error']['msg'][:80]}", {"clause": "ResizeTotal", "key": k, "error": ob["error"]})
+            else:
+                V.violation(f"hw-rejected:{op}|{k} {ob['error']['cls']}: {ob['error']['msg'][:100]}", {"clause": "Total", "key": k, "error": ob["error"]})
+            continue
+        ob = vlib.read_obs(ob)
+        if ob["reader"] != "ok":
+            V.machinery_error(f"reader: {name} {k}: {ob.get('reader_msg')}")
+            continue
+        recs.append({"id": name, "ast": ob["ast"], "top": name.lower(), "op": op, "sg": sg, "l1": l1, "r1": r1, "l2": l2, "r2": r2,
+                     "p1": p1, "p2": p2, "lo": lo, "ro": ro})
+    res = vlib.run_tlc_shards("MC_FixedHw.tla", "MC_FixedHw.cfg", [{"designs": s} for s in vlib.shard(recs, vlib.NCPU)], scratch,
+                              timeout=1500 if tier == "quick" else 6000) if recs else []
+    evals = 0
+    for r in res:
+        pr = r["parsed"]
+        if r["timeout"] or pr["errors"] or "evaluations" not in pr["stat"]:
+            V.machinery_error("MC_FixedHw: " + " / ".join(pr["errors"][:3]) + r["out"][-600:])
+            continue
+        evals += pr["stat"]["evaluations"][0]
+        for name, n1, n2, verdict, got in pr["viol"]:
+            op, sg, l1, r1, l2, r2, p1, p2 = key_of[name]
+            lo, ro = fmts[key_of[name]]
+            c = [op, sg, l1, r1, n1, l2, r2, n2, p1, p2, lo, ro, got]
+            V.violation(f"hw-{op}:{'S' if sg else 'U'}Fixed:{classify(c) if op == 'resize' and verdict == 'value' else verdict}|{describe(c)}",
+                        {"clause": verdict, "case": c, "description": describe(c), "vhdl": obs[name]["vhdl"]})
+    return {"hw_wrappers": len(recs), "hw_evaluations": evals, "hw_rejected": dict(rejected)}
+
+
 def run(tier):
     t0 = time.time()
     V = vlib.Verdict("C19")
@@ -72,6 +157,8 @@ def run(tier):
                 c = sh[i - 1]
                 V.violation(f"{op}:{'S' if c[1] else 'U'}Fixed:{classify(c) if op == 'resize' else ''}|{describe(c)}",
                             {"clause": op, "case": c, "description": describe(c)})
+        # ---- emitted logic: the same operations on run-time values (wrapper designs, every raw operand value)
+        hw = hw_part(tier, cases, scratch, V)
     shapes = {(c[0], c[1], c[2], c[3], c[5], c[6], c[8], c[9]) for c in judged}
     cov = {"evaluations": checked, "distinct_nontrivial": len(shapes),
            "rule": "formats [l:r] with |l|,|r| <= %d and width <= 5 (source and target) x round/overflow styles x ALL raw values: "
@@ -80,6 +167,8 @@ def run(tier):
                    "distinct_nontrivial = distinct (operation, formats, styles)" % bound,
            "samples": [describe(c) for c in judged[:: max(1, len(judged) // 5)][:5]],
            "raised": dict(collections.Counter(c[0] for c in raised)), "exhaustive": True}
+    cov.update(hw)
+    cov["evaluations"] += hw.get("hw_evaluations", 0)
     rc = V.finish()
     vlib.write_evidence("C19", tier, "model_checking", cov, time.time() - t0, len(V.new),
                         ["spec/Fixed.tla transcribes the C19 statement", "harness/pyobs_c19.py reads format and raw bits of each result", "TLC"])
